@@ -1661,7 +1661,7 @@ def gen_gosub(node, code, codegen):
 
 @QvmCodeGen.generator_for(stmt.ReturnStmt)
 def gen_return(node, code, codegen):
-    if node.target:
+    if node.target is not None:
         code.add(
             # throw away the return address
             ('pop',),
